@@ -257,6 +257,41 @@ def compare(outdir):
     return n, dis, ofail, sfail
 
 
+def shape_histogram(outdir):
+    """What the generated cases look like: size, nesting, which constructors and wire tags occur (for the evidence)."""
+    sizes, depths, heads, tags = {}, {}, {}, {}
+    def bump(d, k): d[k] = d.get(k, 0) + 1
+    try:
+        f = open(os.path.join(outdir, "cases.txt"), encoding="utf-8", errors="replace")
+    except OSError:
+        return {}
+    with f:
+        for line in f:
+            line = line.rstrip("\n")
+            if not line:
+                continue
+            n = len(line)
+            bump(sizes, "<64" if n < 64 else "<256" if n < 256 else "<1Ki" if n < 1024 else "<4Ki" if n < 4096
+                 else "<16Ki" if n < 16384 else "<256Ki" if n < 262144 else ">=256Ki")
+            if n <= 262144:
+                d = m = 0
+                for ch in line:
+                    if ch == "(":
+                        d += 1
+                        if d > m: m = d
+                    elif ch == ")":
+                        d -= 1
+                bump(depths, str(m) if m < 8 else "8-15" if m < 16 else "16-63" if m < 64 else ">=64")
+                for h in re.findall(r"\(([A-Za-z_][A-Za-z0-9_-]*)", line):
+                    if not re.fullmatch(r"[0-9a-f]{2,}", h):   # member names are printed as hex after "("
+                        bump(heads, h)
+                for t in re.findall(r"\(p ([0-9a-f]{2}) ", line):
+                    bump(tags, t)
+    top = lambda d, k: dict(sorted(d.items(), key=lambda kv: -kv[1])[:k])
+    return {"case_line_size": sizes, "max_nesting_of_case": depths, "constructors_seen": top(heads, 40),
+            "wire_value_tags_seen": len(tags), "wire_value_tags_top": top(tags, 12)}
+
+
 def unlimited_stack():
     import resource
     try:
@@ -452,6 +487,7 @@ def check(pid, tier):
             rb, _ = build_ipputil()
             harness_ok = rb.returncode == 0
     stats = {}
+    shape = {}
     n = 0
     dis = ofail = sfail = []
     if not harness_ok:
@@ -487,6 +523,7 @@ def check(pid, tier):
             violations.append((p, ""))
         else:
             n, dis, ofail, sfail = compare(rundir)
+            shape = shape_histogram(rundir)
             try:
                 stats = json.load(open(os.path.join(rundir, "stats.json")))
             except Exception as e:
@@ -563,7 +600,7 @@ def check(pid, tier):
         "rule": stats.get("rule", ""),
         "samples": stats.get("samples", [])[:5] or [clip(c) for (_, c, _, _, _) in (dis + ofail)[:2]] or ["(no cases run)"],
         "exhaustive": bool(stats.get("exhaustive", False)),
-        "input_distribution": {"ops": stats.get("ops", {}), "classes": stats.get("classes", {}), "corpus_cases": stats.get("corpus_cases", 0)},
+        "input_distribution": {"ops": stats.get("ops", {}), "classes": stats.get("classes", {}), "corpus_cases": stats.get("corpus_cases", 0), "shape": shape},
         "correspondence": {"cases_compared": n - getattr(compare, "skipped", 0), "cases_model_skipped": getattr(compare, "skipped", 0), "model_vs_implementation_disagreements": len(dis),
                            "implementation_oracle_failures": len(ofail), "implementation_vs_spec_failures": len(sfail)},
         "known_findings_seen": {k: v[1] for k, v in known_hits.items()},
